@@ -141,6 +141,7 @@ type L3Mock struct {
 }
 
 type L3State struct {
+	Guard *TemplateGuard
 	Dir   string
 	Repo  *Repo
 	Mocks []*L3Mock
@@ -183,10 +184,16 @@ func (env *Env) L3Get() (*L3State, error) {
 			return
 		}
 		st := &L3State{Dir: root}
+		st.Guard = templateGuard(env.RepoDir)
+		corpusText := corpusSrc
+		if dyn := st.Guard.dynCorpus(); dyn != "" {
+			corpusText += dyn
+			corpusIfaces = append(corpusIfaces, "Dyn")
+		}
 		files := map[string]string{
 			"go.mod":              "module corpus.example\n\ngo 1.21\n",
 			"dep/dep.go":          corpusDep,
-			"corpus/corpus.go":    corpusSrc,
+			"corpus/corpus.go":    corpusText,
 			"corpus/other/doc.go": "package other\n",
 		}
 		if err := writeTree(root, files); err != nil {
